@@ -90,6 +90,11 @@ def stepLine (st : St) (toks : List String) : St × String :=
       let port ← port.toNat?
       let data ← ofHex? data
       pure (reply st cid (step st (.data sip sport cid ⟨k, host, port⟩ data)))
+    | ["join", ip, port, cid] => do
+      let ip ← ofHex? ip
+      let port ← port.toNat?
+      let cid ← cid.toNat?
+      pure (reply st cid (step st (.join ip port cid)))
     | ["open4", cid] => do
       let cid ← cid.toNat?
       pure (reply st cid (step st (.open4 cid)))
